@@ -11,9 +11,11 @@ import (
 
 // ---- scalar semantics (SQL + the OctoSQL conventions named in the properties) ---------------------
 
-var kindRank = map[string]int{"null": 0, "int": 1, "float": 2, "bool": 3, "str": 4, "list": 7}
+var kindRank = map[string]int{"null": 0, "int": 1, "float": 2, "bool": 3, "str": 4, "time": 5, "list": 7}
 
-// Cmp is the documented value order: NULL first, then by kind, ints/floats numerically, strings bytewise.
+// Cmp is the documented value order: NULL first, then by kind, ints/floats numerically, strings bytewise, times as
+// instants (the zone a time is written in is spelling, not value: two spellings of one instant are the same value, hence
+// the same group key / DISTINCT row / join key, and they tie under ORDER BY).
 func Cmp(a, b gen.JV) int {
 	if a.K != b.K {
 		if kindRank[a.K] < kindRank[b.K] {
@@ -51,6 +53,14 @@ func Cmp(a, b gen.JV) int {
 		return 1
 	case "str":
 		return strings.Compare(a.S, b.S)
+	case "time":
+		switch {
+		case a.I < b.I:
+			return -1
+		case a.I > b.I:
+			return 1
+		}
+		return 0
 	case "list":
 		for i := 0; i < len(a.L) && i < len(b.L); i++ {
 			if c := Cmp(a.L[i], b.L[i]); c != 0 {
